@@ -140,6 +140,9 @@ structure Intercept (Cls : Type) where
   status : S
   ch : ChTest
   op : OpRef Cls
+  /-- `memory.status = s'; return super().handle(memory, ch)`: the intercept only re-labels the state and lets the base
+  machine handle the symbol (`op` is not used then) -/
+  redirect : Option S := none
 
 /-- the Python value of the `ch` argument -/
 def Sym.pyStr (endMarker : List Char) : Sym → List Char
@@ -157,7 +160,10 @@ structure Machine (Cls : Type) where
 
 def Machine.handle (mc : Machine Cls) (text : List Char) (m : Mem) (sym : Sym) : Except Err (Mem × Bool) :=
   match mc.intercepts.find? (fun i => i.fires mc.endMarker m.status sym) with
-  | some i => exec (mc.cfg.env text) i.op.status i.op.marks sym (mc.cfg.code i.op.cls) {} m
+  | some i =>
+    (match i.redirect with
+     | some s' => Lex.handle mc.cfg text { m with status := s' } sym
+     | none => exec (mc.cfg.env text) i.op.status i.op.marks sym (mc.cfg.code i.op.cls) {} m)
   | none => Lex.handle mc.cfg text m sym
 
 /-- `if not handle(ch): handle(ch)` -/
